@@ -3,7 +3,7 @@ PROP = {"engines": [("deque", "default")],
                       "every CC_Deque operation except add_at refines the ideal list (status, out-values, content) or answers CC_ERR_ALLOC with the state unchanged; "
                       "get_at i reads slot (first+i) mod capacity = i-th element; growth/trim/copies preserve order; upper_pow_two is the least power of two; lifted to all "
                       "histories from cc_deque_new_conf for every configured capacity. cc_deque_add_at is proved only in its correct branches (C05_add_at_partial) and refuted "
-                      "in general (C05_add_at_refuted, known finding D17). The branch conditions are regenerated from cc_deque.c on every run and the model is run against "
+                      "in general (C05_add_at_refuted, known finding D17). The branch conditions are re-translated from cc_deque.c on every run, machine-proved equal to the terms the model uses, and the model is run against "
                       "the compiled code on every (capacity<=8 (16), first, size) layout x every operation x every index, all iterator programs of length 3, random histories "
                       "from configured capacities 0..9, fault plans, and CC_Queue histories.",
         "assumptions": ["a deque header and its buffer are live ledger blocks of the deque's own allocator family (owns)",
